@@ -19,7 +19,7 @@ CHECKS = {
     "C02": (
         "E2",
         "bounded-exhaustive enumeration of dimension-typed programs without a well-typedness filter (every mis-dimensioned variant included) against an independent dimensional-analysis reference; rejected programs embedded at every position of a multi-statement input",
-        "Every expression of depth <= 2 over a collision alphabet of units/variables with + - * / -> rational powers, unary minus, conditionals, lists and calls of inferred, annotated and generic functions is generated WITHOUT filtering for consistency, then again under 6 annotations, as unit and derived-dimension definitions and inside 9 function bodies with every call argument and (parameter, return) annotation pair (106k programs quick). An independent reference (dimension vectors derived from the units' run-time definitions, unification on + - -> comparison branches list arguments annotations) decides consistent / inconsistent / outside the quantifier; the checker must reject exactly the inconsistent ones with a type error and report the reference's type for the others. A subset of rejected programs is embedded at every position of a multi-statement input: nothing may be printed or defined.",
+        "Every expression of depth <= 2 over a collision alphabet of units/variables with + - * / -> rational powers, unary minus, conditionals, lists and calls of inferred, annotated and generic functions is generated WITHOUT filtering for consistency, then again under 6 annotations, as unit and derived-dimension definitions and inside 9 function bodies with every call argument and (parameter, return) annotation pair (106k programs quick). An independent reference (dimension vectors derived from the units' run-time definitions, unification on + - -> comparison branches list arguments annotations) decides consistent / inconsistent / outside the quantifier; the checker must reject exactly the inconsistent ones with a type error and report the reference's type for the others. Every rejected depth-1 expression and every rejected definition form is embedded at every position of a multi-statement input: nothing may be printed, the session observation must be unchanged and every name the input would define must afterwards behave exactly as before (unknown to the type checker as well). The atom alphabet includes a subnormal literal (non-zero literals are never dimension-polymorphic).",
         "Trusted: the DimInfer reference (about 150 lines) and its exclusion rules; generic functions compared at call sites; depth-bounded.",
         "§4 C02",
     ),
@@ -32,15 +32,15 @@ CHECKS = {
     ),
     "C08": (
         "E2",
-        "exhaustive enumeration of all token strings up to length L over a 52-token alphabet (one spelling of every token kind) in fresh and prelude sessions, plus every (template x extreme) input in an isolated child process",
-        "(a) Every token string of length <= 3 (quick) / 4 (thorough) over one spelling of every token kind is interpreted in a fresh clone of a no-prelude and of a prelude session, the result echoed or the diagnostic rendered, inside catch_unwind with a panic hook recording the call site. (b) 53 templates (powers, unit powers, factorial runs, nested brackets/unary runs/lists/conditionals/calls, long chains, long literals, many statements, recursion depth ...) x extreme values or repetition counts, each in its own child process with a time and address-space limit; exit by signal, timeout or panic is the observation. Crashes are keyed by panic call site or template so one defect is one finding.",
+        "exhaustive enumeration of all token strings up to length L over a 52-token alphabet, all character strings up to length 3/4 over a 76-character alphabet, all statement histories up to length 4/5 over two definition alphabets, every stdlib function x edge-argument tuple, plus every (template x extreme) input in an isolated child process",
+        "(a) Every token string of length <= 3 (quick) / 4 (thorough) over one spelling of every token kind is interpreted in a fresh clone of a no-prelude and of a prelude session, the result echoed or the diagnostic rendered, inside catch_unwind with a panic hook recording the call site. (b) 53 templates (powers, unit powers, factorial runs, nested brackets/unary runs/lists/conditionals/calls, long chains, long literals, many statements, recursion depth ...) x extreme values or repetition counts, each in its own child process with a time and address-space limit; exit by signal, timeout or panic is the observation. (c) every standard-library function x every argument tuple from per-type edge alphabets, in child processes. (d) every history of <= 4/5 statements over an 18-statement alphabet that redefines one name as functions of different arity, variable, unit, struct and function value, and over a 12-statement alphabet of values, functions and variables capturing ans/_ — statement by statement and as one input. (e) every character string of length <= 3 over one representative of every tokenizer character class (76 characters; thorough: length 4 over 56). Crashes are keyed by panic call site, template or history class so one defect is one finding.",
         "Trusted: the harness builds numbat with debug assertions and overflow checks; random byte soup and contexts longer than L tokens outside the templates are not covered.",
         "§4 C08",
     ),
     "C10": (
         "E2",
         "exhaustive enumeration of all token strings up to length L over a 25-token alphabet (and all short literal strings, all single spelling substitutions) against a reference parser written from the documented EBNF and precedence table",
-        "Every token string of length <= 5 (quick) / 6 (thorough) over one spelling of every operator tier, call, field access, conditionals and unicode exponents is parsed by the real parser (canonical S-expression through the hook) and by an independent recursive-descent reference derived from the documents; verdict MUST-PARSE-AS(tree) / MUST-REJECT / UNSPECIFIED, so both directions of the property are decided. Plus every single alternative-spelling substitution in all strings of length <= 3/4 and every character string of length <= 6/7 over the literal alphabet against the documented number forms.",
+        "Every token string of length <= 5 (quick) / 6 (thorough) over one spelling of every operator tier, call, field access, conditionals and unicode exponents is parsed by the real parser (canonical S-expression through the hook) and by an independent recursive-descent reference derived from the documents; verdict MUST-PARSE-AS(tree) / MUST-REJECT / UNSPECIFIED, so both directions of the property are decided. Plus every single alternative-spelling substitution in all strings of length <= 3/4 and every character string of length <= 6/7 over the literal alphabet against the documented number forms (a documented literal must be read as that number; anything else must not be read as one number, and a maximal run of digits, '_' and '.' that is not a documented form must be rejected, never split into two numbers).",
         "Trusted: the reference parser (about 300 lines, from the EBNF + book table; where the two documents give different but value-equivalent trees either is accepted; fixed UNSPECIFIED classes listed in the evidence assumptions).",
         "§4 C10, Appendix A",
     ),
@@ -96,7 +96,7 @@ CHECKS = {
     "C05": (
         "E3",
         "exhaustive sweep over all unit-pair products/quotients, all prefixed named-unit pairs over a prefix alphabet, all <=3-factor terms with powers; raw value (hook) vs displayed / printed / interpolated value",
-        "For every product and quotient of two standard-library units, every product/quotient of prefixed named SI units over {none,nano,milli,kilo,giga}, every <=3-factor term with powers over the collision alphabet and a set of explicit conversions: the raw value bound to a variable is compared with the value displayed as a result (dimension, base-unit magnitude, conversion back to the raw unit) and, on a fixed subset, with the print and string-interpolation texts read back as input; explicit conversions must be displayed in exactly the requested unit on all three paths.",
+        "For every product and quotient of two standard-library units, every product/quotient of prefixed named SI units over {none,nano,milli,kilo,giga}, every <=3-factor term with powers over the collision alphabet, and explicit conversions (every same-dimension unit pair; every product/quotient/square of two units of a 15-unit derived-SI alphabet as target, from the base-unit form of the same quantity): the raw value bound to a variable is compared with the value displayed as a result (dimension, base-unit magnitude, conversion back to the raw unit) and, on a fixed subset, with the print and string-interpolation texts read back as input; explicit conversions must be displayed in exactly the requested unit on all three paths.",
         "Trusted: UnitDefs reference; fixed magnitudes; texts compared at 6 significant digits.",
         "§4 C05",
     ),
@@ -145,14 +145,14 @@ CHECKS = {
     "C06": (
         "E1",
         "explicit-state BFS over session histories on real Contexts (clone-and-step), deduplicated on a full observation hash; before/after + k-step continuation equality on every failing transition",
-        "States are sessions reached by successful inputs over an alphabet that contains every failure kind (also inside imported modules and after successful statements/imports). In every reachable state (to the depth bound) every alphabet input is executed on a clone; for every failing one the complete observation (names, raw values, signatures, units, dimensions, imported modules, VM shape, outcome of every one-step continuation) must be identical before and after, and in the thorough tier all two-step continuations are compared as well. Two drivers: a no-prelude session over an in-memory module tree and a prelude session with real modules.",
+        "States are sessions reached by successful inputs over an alphabet that contains every failure kind (also inside imported modules, after successful definitions/imports, and in definition-free inputs after expression statements and procedure calls). In every reachable state (to the depth bound) every alphabet input is executed on a clone; for every failing one the complete observation (names, raw values, signatures, units, dimensions, imported modules, VM shape, outcome of every one-step continuation) must be identical before and after, and in the thorough tier all two-step continuations are compared as well. Two drivers: a no-prelude session over an in-memory module tree and a prelude session with real modules.",
         "Trusted: the observation function as the notion of 'behaves the same' (differences that need more than k further steps and touch nothing observed are missed); alphabet- and depth-bounded.",
         "§4 C06",
     ),
     "C07": (
         "E1",
         "depth-first enumeration of all all-successful input histories up to length n on real Contexts; per history all block compositions, real `save` command + replay, and forks, compared on full observations",
-        "For every history (up to the length bound, over an alphabet of definitions, redefinitions, shadowing, function values, lists, prints, ans, imports) whose inputs all succeed one at a time: every composition into multi-line blocks, the file written by the real `save` command (with failing lines interleaved) replayed line by line and as one input, and a copy taken before the last input, must all give the same definitions, raw values, printed output and results; copies must not affect each other.",
+        "For every history (up to the length bound, over an alphabet of definitions, redefinitions, shadowing, function values, lists, prints, ans, imports) whose inputs all succeed one at a time: every composition into multi-line blocks, the file written by the real `save` command (once with a failing line entered before every good line, once with the good lines alone so that repeated inputs are adjacent) replayed line by line and as one input, and a copy taken before the last input, must all give the same definitions, raw values, printed output and results; copies must not affect each other.",
         "Trusted: the observation function; a batch is taken to report the last value any of its lines produces (numbat's documented multi-line behaviour); single-line inputs only.",
         "§4 C07",
     ),
